@@ -211,6 +211,72 @@ theorem table_sizes_positive :
     (∀ mi ∈ PV.Generated.C04.macTable, 0 < mi.digestSize ∧ mi.size ≤ mi.digestSize) := by
   decide +kernel
 
+/-! ## the session identifier over a connection's whole life -/
+
+/-- **AST-derived fact** (regenerated from paramiko/*.py on every run): apart from `= None` in
+    `__init__`, `self.session_id` is assigned exactly once in the package — `self.session_id = h` in
+    `_set_K_H`, directly under `if self.session_id is None:`. -/
+theorem session_id_guard_generated : PV.Generated.C04.sessionIdGuarded = true := by decide
+
+private theorem run_keeps_sid (exs : List (Int × Bytes)) (s : KexState) (sid : Bytes)
+    (h : s.sessionId = some sid) : (runExchanges true s exs).sessionId = some sid := by
+  induction exs generalizing s with
+  | nil => exact h
+  | cons e rest ih =>
+    apply ih
+    simp [setKH, h]
+
+/-- **`session_id` is the first exchange hash, forever.**  After any number of key exchanges
+    (initial kex followed by any list of re-keys) `K` and `H` are those of the last exchange and
+    `session_id` is the exchange hash of the *first* one. -/
+theorem session_id_is_first_exchange_hash (k1 : Int) (h1 : Bytes) (rekeys : List (Int × Bytes)) :
+    let s := runExchanges PV.Generated.C04.sessionIdGuarded KexState.init ((k1, h1) :: rekeys)
+    s.sessionId = some h1 ∧
+    s.K = some ((((k1, h1) :: rekeys).getLast (by simp)).1) ∧
+    s.H = some ((((k1, h1) :: rekeys).getLast (by simp)).2) := by
+  rw [session_id_guard_generated]
+  refine ⟨run_keeps_sid rekeys _ h1 (by simp [setKH, KexState.init]), ?_, ?_⟩
+  · have : ∀ (l : List (Int × Bytes)) (s : KexState) (hne : l ≠ []),
+        (runExchanges true s l).K = some (l.getLast hne).1 := by
+      intro l
+      induction l with
+      | nil => intro s hne; exact absurd rfl hne
+      | cons e rest ih =>
+        intro s hne
+        cases rest with
+        | nil => simp [runExchanges, setKH]
+        | cons e2 r2 =>
+          have := ih (setKH true s e.1 e.2) (by simp)
+          simpa [runExchanges] using this
+    exact this _ _ (by simp)
+  · have : ∀ (l : List (Int × Bytes)) (s : KexState) (hne : l ≠ []),
+        (runExchanges true s l).H = some (l.getLast hne).2 := by
+      intro l
+      induction l with
+      | nil => intro s hne; exact absurd rfl hne
+      | cons e rest ih =>
+        intro s hne
+        cases rest with
+        | nil => simp [runExchanges, setKH]
+        | cons e2 r2 =>
+          have := ih (setKH true s e.1 e.2) (by simp)
+          simpa [runExchanges] using this
+    exact this _ _ (by simp)
+
+/-- **Keys of every exchange use the first exchange hash as session id**: after the n-th exchange
+    (any n ≥ 1) `_compute_key` yields RFC 4253 §7.2 with the *current* `K`, `H` and `session_id = H₁`. -/
+theorem keys_after_rekeys (hl : HashLaws h) (k1 : Int) (h1 : Bytes) (rekeys : List (Int × Bytes)) (n : Nat) :
+    stateKey h (runExchanges PV.Generated.C04.sessionIdGuarded KexState.init ((k1, h1) :: rekeys)) X n
+      = some (rfcKey h ((((k1, h1) :: rekeys).getLast (by simp)).1)
+                (((k1, h1) :: rekeys).getLast (by simp)).2 h1 X n) := by
+  obtain ⟨e1, e2, e3⟩ := session_id_is_first_exchange_hash k1 h1 rekeys
+  simp only [stateKey, e1, e2, e3, computeKey_eq_rfcKey h _ _ _ X hl]
+
+/-- what the unguarded assignment does: from the second re-key on the session id is a later hash -/
+theorem unguarded_session_id_witness :
+    (runExchanges false KexState.init [(1, [1]), (2, [2]), (3, [3])]).sessionId = some [3] ∧
+    (runExchanges true KexState.init [(1, [1]), (2, [2]), (3, [3])]).sessionId = some [1] := by decide
+
 /-! ## the IV that is actually used on the wire (AES-GCM) -/
 
 /-- **AST-derived fact** (regenerated from paramiko/packet.py on every run): in `send_message` and in
